@@ -51,6 +51,7 @@ def run_shard(ctx):
     qmgen.drive_histories(ctx, OWN, qmgen.double_report_history(), ctx.n(400, 8000), nontrivial, salt=13)
     qmgen.drive_histories(ctx, OWN, qmgen.enqueue_vs_load_history(), ctx.n(400, 8000), nontrivial, salt=14)
     qmgen.drive_histories(ctx, OWN, qmgen.own_write_announced_history(), ctx.n(400, 8000), nontrivial, salt=16)
+    qmgen.drive_histories(ctx, OWN, qmgen.exhausted_dup_history(), ctx.n(200, 400), nontrivial, salt=18)
 
 
 def replay(case):
